@@ -494,30 +494,37 @@ def rule_api_io(ctx, R, F):
 def rule_bind_key(ctx, R, F):
     R.rule('BIND-KEY', 'every machine->setCache(c) in randomx.cpp is followed (post-dominated) by machine->cacheKey = c->cacheKey; '
            'randomx_init_cache re-initialises iff key differs or cache uninitialised and records the key after initialising', min_instances=3)
+    import decoder as _dec
+    from rules.common import ptr_eval, normal_flow
     n = 0
     for name in ('randomx_create_vm', 'randomx_vm_set_cache'):
         f = F.func(name, unit=RANDOMX_CPP)
         R.saw(fn=f['q'], unit=RANDOMX_CPP)
-        g = CFG(f)
-        for comp in walk(f['body']):
-            if comp['k'] != 'Compound':
-                continue
-            for idx, st in enumerate(comp['s']):
-                top = strip_all(st)
-                if top['k'] == 'Call' and top.get('fn') == 'randomx_vm::setCache':
-                    n += 1
-                    vm = show(top.get('this'))
-                    cache = show(top['a'][0])
-                    nxt = comp['s'][idx + 1] if idx + 1 < len(comp['s']) else None
-                    found = show(nxt) if nxt is not None else None
-                    okk = False
-                    if nxt is not None:
-                        t2 = strip_all(nxt)
-                        if t2['k'] == 'Call' and t2.get('opcall') == '=' and show(t2.get('this')) == '%s->cacheKey' % vm and show(t2['a'][0]) == '%s->cacheKey' % cache:
-                            okk = True
-                    R.check(okk, '%s: setCache(%s)' % (name, cache), loc(top, f), expected='next statement: %s->cacheKey = %s->cacheKey' % (vm, cache), found=found)
+        # non-throwing flow; pointer parameters are non-null or null consistently along a path, a VM local that was just constructed is non-null
+        ptr_ids = [p_['id'] for p_ in f['params'] if '*' in (p_.get('ty') or '')]
+        vm_locals = [d_['id'] for x in walk(f['body']) if x['k'] == 'Decl' for d_ in x['d'] if 'randomx_vm' in (d_.get('ty') or '') and '*' in (d_.get('ty') or '')]
+        paths = _dec.paths(normal_flow(f['body']))
+        import itertools
+        sites = {}
+        for combo in itertools.product((False, True), repeat=len(ptr_ids)):
+            asg = dict(zip(ptr_ids, combo))
+            for v_ in vm_locals:
+                asg[v_] = True
+            for p_ in paths:
+                if any(ptr_eval(c_, asg) not in (None, t_) for c_, t_ in p_.conds):
+                    continue
+                evs = [e_ for e_ in p_.events if not isinstance(e_, tuple)]
+                binds = [(c, show(c.get('this')), show(c['a'][0])) for e_ in evs for c in calls(e_) if c.get('fn') == 'randomx_vm::setCache']
+                for c, vm, cache in binds:
+                    key = (c.get('ln'), vm, cache)
+                    copied = any(c2.get('opcall') == '=' and show(c2.get('this')) == '%s->cacheKey' % vm and show(c2['a'][0]) == '%s->cacheKey' % cache for e_ in evs for c2 in calls(e_))
+                    sites.setdefault(key, []).append(copied)
+        for (ln, vm, cache), oks in sorted(sites.items(), key=str):
+            n += 1
+            R.check(all(oks), '%s: setCache(%s)' % (name, cache), '%s:%s' % (f['file'], ln), expected='%s->cacheKey = %s->cacheKey on every path that binds the cache' % (vm, cache),
+                    found='recorded on every path' if all(oks) else 'a path binds the cache without recording its key')
     if n < 2:
-        raise AnalysisBroken('BIND-KEY: fewer than 2 setCache call statements in randomx.cpp')
+        raise AnalysisBroken('BIND-KEY: fewer than 2 setCache call sites in randomx.cpp')
     f = F.func('randomx_init_cache', unit=RANDOMX_CPP)
     R.saw(fn=f['q'])
     g = CFG(f)
